@@ -91,8 +91,10 @@ func outputTupleDir(v rel.Value, dir string, fs afero.Fs, dryRun bool) error {
 		return err
 	}
 	if info, err := fs.Stat(dir); os.IsNotExist(err) {
-		if err := fs.Mkdir(dir, 0755); err != nil {
-			return err
+		if !dryRun {
+			if err := fs.Mkdir(dir, 0755); err != nil {
+				return err
+			}
 		}
 	} else if err != nil {
 		return err
@@ -219,7 +221,11 @@ func applyIfExistsConfig(t rel.Tuple, dir string, fs afero.Fs, dryRun bool) (err
 		return errInvalidConfig
 	}
 	switch conf.String() {
-	case ifExistsIgnore, ifExistsRemove, ifExistsReplace, ifExistsFail:
+	case ifExistsIgnore, ifExistsRemove, ifExistsFail:
+	case ifExistsReplace:
+		if err := checkDirXorFileField(t); err != nil {
+			return err
+		}
 	case ifExistsMerge:
 		if t.HasName(fileField) {
 			return errors.Errorf("%s: '%s' config must not have '%s' field", ifExistsConfig, fileField, ifExistsMerge)
